@@ -620,6 +620,11 @@ func runTree(root *Node) (res treeResult) {
 		if f, ok := m.owner[a]; ok {
 			return f
 		}
+		for _, n := range nodes {
+			if !n.isCreate() && n.addr == a {
+				return n.idx
+			}
+		}
 		return -1
 	}
 	// accounts, before and after Finalise
@@ -838,6 +843,13 @@ func checkTree(c *fw.Ctx, root *Node) {
 					b = strings.TrimPrefix(b, kc+"-")
 				}
 				sig = "C12:returned-logs:extra:" + b
+			}
+			if d.part == "returned-logs" {
+				// the list handed back by evm.Call is an internal API value; the property speaks
+				// about the receipt (receipt.Logs / receipt Msg, judged in part b): counted only
+				c.Count("returned_log_list_mismatches", 1)
+				c.Note("returned_log_list_mismatches_note", "log list returned by evm.Call differs from the surviving logs (reverted frames included / CALLCODE omitted); not judged: the statement constrains the receipt, which part (b) checks")
+				continue
 			}
 			recs = append(recs, rec{sig, d})
 			fresh = fresh || sigCount[sig] < 3
